@@ -163,3 +163,10 @@ pub fn run_cli_conf(dir: &Path, conf: &str) -> CliResult {
     cmd.current_dir(dir).arg("--conf").arg(conf);
     run_with_timeout(&mut cmd, 60)
 }
+
+/// Runs oal-cli from working directory `cwd` with an absolute configuration path and a target relative to it.
+pub fn run_cli_conf_from(cwd: &Path, conf: &Path, target: &str) -> CliResult {
+    let mut cmd = cli_command();
+    cmd.current_dir(cwd).arg("--conf").arg(conf).arg("-t").arg(target);
+    run_with_timeout(&mut cmd, 60)
+}
